@@ -184,6 +184,49 @@ static void op_checkttl(char **tok, int n) {
     radmsg_free(msg);
 }
 
+static void op_vttl(char **tok, int n) {
+    /* vttl <t0> <t1> <vendor octets hex> <stray octets hex> P attrs... S subs(t:hex)... Q attrs...
+       the Vendor-Specific attribute is put together here: vendor octets, each sub-attribute as type, length, value,
+       then the stray octets */
+    uint32_t at[2];
+    struct radmsg *msg = radmsg_init(1, 0, (uint8_t *)"0123456789abcdef");
+    int r, i, sect = 0, vblen, trlen, vlen = 0;
+    uint8_t *vb, *tr, val[1024];
+    at[0] = strtoul(tok[0], NULL, 10);
+    at[1] = strtoul(tok[1], NULL, 10);
+    vb = h_unhex(tok[2], &vblen);
+    tr = h_unhex(tok[3], &trlen);
+    memcpy(val, vb, vblen); vlen = vblen;
+    for (i = 4; i < n; i++) {
+        char *c;
+        int len;
+        uint8_t *v;
+        if (!strcmp(tok[i], "P")) { sect = 1; continue; }
+        if (!strcmp(tok[i], "S")) { sect = 2; continue; }
+        if (!strcmp(tok[i], "Q")) {
+            memcpy(val + vlen, tr, trlen); vlen += trlen;
+            list_push(msg->attrs, maketlv(RAD_Attr_Vendor_Specific, vlen, val));
+            sect = 3; continue;
+        }
+        c = strchr(tok[i], ':');
+        if (!c) continue;
+        *c++ = 0;
+        v = h_unhex(c, &len);
+        if (sect == 2) {
+            val[vlen++] = atoi(tok[i]); val[vlen++] = len + 2;
+            memcpy(val + vlen, v, len); vlen += len;
+        } else
+            list_push(msg->attrs, maketlv(atoi(tok[i]), len, v));
+        free(v);
+    }
+    r = checkttl(msg, at);
+    printf("obs %d checkttl %d", opidx, r == -1 ? 2 : r);
+    print_attrs(msg);
+    printf("\n");
+    radmsg_free(msg);
+    free(vb); free(tr);
+}
+
 static void op_addttl(char **tok, int n) {
     /* addttl <t0> <t1> <addttl> attrs... */
     uint32_t at[2];
@@ -317,6 +360,7 @@ static void h_line(char *kind, char *rest) {
         if (n < 1) return;
         if (!strcmp(tok[0], "decttl")) op_decttl(tok + 1, n - 1);
         else if (!strcmp(tok[0], "checkttl")) op_checkttl(tok + 1, n - 1);
+        else if (!strcmp(tok[0], "vttl")) op_vttl(tok + 1, n - 1);
         else if (!strcmp(tok[0], "addttl")) op_addttl(tok + 1, n - 1);
         else if (!h_more_ops(tok, n)) printf("obs %d unknown-op %s\n", opidx, tok[0]);
         opidx++;
